@@ -135,7 +135,20 @@ def main():
         print("KNOWN-FINDING: property=%s %s [%s] obligation %s (%s:%s): %s" %
               (prop, k["id"], g.name, f["property"], os.path.basename(f["file"]), f["line"], k["what"]))
     vio_paths = []
-    for g, r, f in violations:
+    # at most three replay files / VIOLATION lines per group: contract-level obligations first, derived memory-safety ones after
+    def _rank(f):
+        n = f["property"]
+        return 0 if ("postcondition" in n or ".assertion." in n or "loop_invariant" in n or "precondition" in n) else 1
+    per_group, shown = {}, []
+    for g, r, f in sorted(violations, key=lambda t: (t[0].name, _rank(t[2]))):
+        k = per_group.get(g.name, 0)
+        per_group[g.name] = k + 1
+        if k < 3:
+            shown.append((g, r, f))
+    for name, k in per_group.items():
+        if k > 3:
+            print("NOTE property=%s group=%s: %d failed obligations, the first 3 are reported" % (prop, name, k))
+    for g, r, f in shown:
         path, reproduced = rp.write_replay(prop, g, r, f)
         vio_paths.append(path)
         print("FAILED-OBLIGATION property=%s group=%s obligation=%s at %s:%s: %s" %
